@@ -168,14 +168,15 @@ class C17(fw.Property):
                   "non-ASCII attribute names in filter queries (str.lower), Accept other than link-format, multicast no-response, observation/blockwise paths through the site.")
     rule = ("streams: site_history = random nested registration trees (shared prefixes, empty components, root resources, 3 levels, resources shadowing sub-sites, opaque PathCapable "
             "children, hidden resources, WKC resources) built by add/remove op sequences on real resource.Site objects, interleaved with GET requests through Site.render and "
-            "Site.render_to_pipe (paths derived from / near registered ones, Uri-Path-Abbrev), list ops and /.well-known/core with zero or one filter; wkc_filter = a populated "
+            "Site.render_to_pipe (paths derived from / near registered ones, Uri-Path-Abbrev), needs_blockwise_assembly / add_observation dispatch (locate), probe ops (list the root, request every listed href), "
+            "alias ops (same Site at a second place), list ops and /.well-known/core with zero or one filter; wkc_filter = a populated "
             "site and single filter queries derived from the registered attributes (exact, prefix, '*', empty, unknown, case variants, Python attribute names); flat_site = op "
             "lists on one Site calling _find_child_and_pathstripped_message/add_resource/remove_resource/_expand_upa directly vs the translated code. Non-trivial = a request "
             "routed through a nested site and a 4.04 in the same history, or a filter selecting a proper non-empty subset, or a flat lookup hitting a sub-site; distinct by full input.")
     trusted_base = ["custom translator translate/jobs/c17.py + Model/C17Base.v prelude (validated by the flat_site stream on every run)",
                     "hand-written Model/C17.v (validated by the site_history and wkc_filter streams)",
                     "harness: handler resources, link_format_to_message capture, URI segment split of get_request_uri()"]
-    assumptions = ["one Site object is registered at one place only (tree, no aliasing)", "at most one Uri-Query filter per request (RFC 6690 4.1; O1)",
+    assumptions = ["a Site object registered at two places is not mutated afterwards and never registered inside itself (value-tree model)", "at most one Uri-Query filter per request (RFC 6690 4.1; O1)",
                    "a sub-site registered at the empty path is never consulted (O2) — the theorems and the oracle say 'non-empty proper prefix'"]
 
     # =========================================================================================== generation
